@@ -301,6 +301,8 @@ template <size_t SZ, size_t AL> struct alignas(AL) Obj
         sop_last_ctor = this;
         for (size_t i = 0; i < SZ; i++) b[i] = pat((uintptr_t)this, i);
     }
+    // a constructor that throws (op `ct`): no object comes into existence, the destructor never runs
+    explicit Obj(int code) { throw code; }
     ~Obj()
     {
         if (!sop_objs.erase(this)) sop_err = "destroyed a dead object";
@@ -319,6 +321,7 @@ struct SopBase
 {
     virtual ~SopBase() {}
     virtual void *create() = 0;
+    virtual int create_throw() = 0; // create(args) whose constructor throws: 0 = nullptr came back, 1 = the exception propagated, 2 = an object came back
     virtual void destroy(void *) = 0;
     virtual size_t avail() = 0;
     virtual char *base() = 0;
@@ -338,6 +341,17 @@ template <size_t SZ, size_t AL, size_t CAP> struct SopImpl : SopBase
     SopImpl() { p = new P(); } // on the heap: ASan redzones right behind `storage`
     ~SopImpl() { delete p; }
     void *create() { return p->create(); }
+    int create_throw()
+    {
+        try
+        {
+            return p->create(42) ? 2 : 0;
+        }
+        catch (int)
+        {
+            return 1;
+        }
+    }
     void destroy(void *q) { p->destroy((T *)q); }
     size_t avail() { return p->avail(); }
     char *base() { return (char *)p->storage.data(); }
@@ -976,6 +990,18 @@ static void run_op(const std::vector<std::string> &w, const std::string &, out &
             if (sop_ctor_runs != c0) o.fail("destroy ran a constructor");
             o.result = "";
             o.tag("destroy");
+        }
+        else if (op == "ct")
+        {
+            // round 3b: create(args...) whose T constructor throws.  No object exists afterwards, so the cell must be
+            // back in the pool ("free count = capacity - live", judged below) and the exception must reach the caller.
+            int rc = p.create_throw();
+            if (rc == 2) o.fail("create(throwing constructor) returned an object");
+            if (rc == 0 && SC->live.size() != SC->cap) o.fail("null with free cells left");
+            if (rc == 1 && SC->live.size() >= SC->cap) o.fail("a constructor was started although Capacity objects are live");
+            if (sop_ctor_runs != c0 || sop_dtor_runs != d0) o.fail("create(throwing constructor) completed a constructor / ran a destructor");
+            o.result = rc == 1 ? "throw" : rc == 0 ? "null" : "object";
+            o.tag(rc == 1 ? "create-ctor-throws" : "create-ctor-throws-null");
         }
         else if (op == "x")
         {
